@@ -1,5 +1,6 @@
 \* trie2, repaired design (FixValueDeletePath = TRUE), exhaustive: H = 3, values {1}, <= 4 updates,
 \* Get / Hash / Commit / Reopen anywhere
+\* measured: 23 628 distinct states (10 s, 4 workers)
 CONSTANTS
   H = 3
   MaxV = 1
